@@ -356,18 +356,23 @@ def x86InstName (flags id : Nat) : Str :=
 open AsmjitVerif.Gen.FormatTabs in
 def x86InstCount : Nat := x86InstNames.size
 
+/-- the option words `format_instruction` prints before the mnemonic, in its order; each is followed by one blank.
+    `rep`/`repnz` is followed by `{reg}` when the instruction carries an extra register -/
+def x86HeadWords (flags : Nat) (env : Env) (options : Nat) (extra : ExtraReg) : List Str :=
+  let o (bit : Nat) (s : String) : List Str := if hasBit options bit then [s.toList] else []
+  o ioVex "{vex}" ++ o ioVex3 "{vex3}" ++ o ioEvex "{evex}" ++
+  (if hasBit options ioModRM then ["{modrm}".toList] else if hasBit options ioModMR then ["{modmr}".toList] else []) ++
+  o ioShortForm "short" ++ o ioLongForm "long" ++ o ioXAcquire "xacquire" ++ o ioXRelease "xrelease" ++ o ioLock "lock" ++
+  (if hasBit options (ioRep ||| ioRepne) then
+     [(if hasBit options ioRep then "rep" else "repnz").toList] ++
+     (if extra.isReg then [['{'] ++ x86FormatOperand flags env (.reg extra.type extra.id 0 none) ++ ['}']] else [])
+   else []) ++
+  o ioRex "rex"
+
 /-- options + mnemonic part of `x86::FormatterInternal::format_instruction` -/
 def x86FormatHead (flags : Nat) (env : Env) (instId options : Nat) (extra : ExtraReg) : Str :=
   if instId < x86InstCount then
-    let o (bit : Nat) (s : String) : Str := if hasBit options bit then s.toList else []
-    o ioVex "{vex} " ++ o ioVex3 "{vex3} " ++ o ioEvex "{evex} " ++
-    (if hasBit options ioModRM then "{modrm} ".toList else if hasBit options ioModMR then "{modmr} ".toList else []) ++
-    o ioShortForm "short " ++ o ioLongForm "long " ++ o ioXAcquire "xacquire " ++ o ioXRelease "xrelease " ++ o ioLock "lock " ++
-    (if hasBit options (ioRep ||| ioRepne) then
-       (if hasBit options ioRep then "rep ".toList else "repnz ".toList) ++
-       (if extra.isReg then ['{'] ++ x86FormatOperand flags env (.reg extra.type extra.id 0 none) ++ "} ".toList else [])
-     else []) ++
-    o ioRex "rex " ++ x86InstName flags instId
+    (x86HeadWords flags env options extra).flatMap (fun w => w ++ [' ']) ++ x86InstName flags instId
   else "[InstId=#".toList ++ uintStr instId ++ [']']
 
 /-- the operand loop: stops at the first `none` operand -/
